@@ -69,6 +69,12 @@ func parseCommand(line string) *command {
 		if hasSP {
 			c.bad("trailing-garbage", "%s followed by %q", verb, rest)
 		}
+	case "VRFY":
+		// RFC 5321 4.1.1.6: "VRFY" SP String CRLF
+		c.verb = verb
+		if !hasSP || rest == "" {
+			c.bad("vrfy-syntax", "VRFY without an argument")
+		}
 	case "AUTH":
 		c.verb = verb
 		f := strings.Split(rest, " ")
